@@ -123,6 +123,15 @@ pub enum ReTarget {
 pub const RE_TARGETS: [ReTarget; 4] = [ReTarget::QName, ReTarget::DelegationPoint, ReTarget::ExistingName, ReTarget::NextCloser];
 
 #[derive(Clone, Copy, Debug, PartialEq, Eq, Hash, PartialOrd, Ord)]
+pub enum AlongOwner {
+    Own,
+    Stray,
+    ParentApex,
+    Sibling,
+}
+pub const ALONG_OWNERS: [AlongOwner; 4] = [AlongOwner::Own, AlongOwner::Stray, AlongOwner::ParentApex, AlongOwner::Sibling];
+
+#[derive(Clone, Copy, Debug, PartialEq, Eq, Hash, PartialOrd, Ord)]
 pub enum Move {
     /// answer := one attacker record of the query type at the query name, no RRSIG; authority
     /// cleared; rcode NOERROR
@@ -152,6 +161,15 @@ pub enum Move {
     /// parent zone, with its genuine RRSIGs, RDATA and signatures untouched, the owner of all its
     /// records and RRSIGs rewritten to `target`; served alone in the authority (or answer) section
     Reowned { parent: bool, src: u16, target: ReTarget, answer: bool },
+    /// "inject alongside": the response stays INTACT and an attacker-made record is ADDED: a DS for
+    /// the attacker key (digest over the real zone name of this position), the attacker DNSKEY, an
+    /// NS or an A record, under the RRset's own owner (breaks the signature), a stray / foreign
+    /// owner, the parent apex or a sibling name; unsigned or with an attacker RRSIG; into the
+    /// answer or the authority section
+    InjectAlongside { what: RecordType, owner: AlongOwner, signed: bool, authority: bool },
+    /// (DNSKEY positions) the attacker key is ADDED to the genuine DNSKEY RRset and an attacker
+    /// RRSIG over the WHOLE augmented set is added next to the genuine RRSIGs
+    AugmentDnskeySet,
     /// answer emptied, rcode NXDOMAIN, authority := the zone's genuine SOA with its RRSIGs plus a
     /// forged, unsigned NSEC at the apex that spans the whole zone (apex -> apex)
     ForgedApexNsecWithGenuineSoa,
@@ -195,6 +213,8 @@ impl Fault {
                 Move::Denial { rtype, owner, signed } => format!("replace-by-denial({rtype},{owner:?},{signed:?})"),
                 Move::ForgedApexNsecWithGenuineSoa => "replace-by-forged-apex-nsec+genuine-soa".into(),
                 Move::ReplayWildcard { with_authority } => format!("replay-genuine-wildcard(authority-kept={with_authority})"),
+                Move::InjectAlongside { what, owner, signed, authority } => format!("inject-alongside({what},{owner:?},{},{})", if *signed { "attacker-signed" } else { "unsigned" }, if *authority { "authority" } else { "answer" }),
+                Move::AugmentDnskeySet => "augment-dnskey-set".into(),
                 Move::Reorder { sigs, perm } => format!("reorder-{}(perm {perm})", if *sigs { "rrsigs" } else { "rrset" }),
                 Move::Reowned { parent, src, target, answer } => {
                     format!("reowned-genuine-rrset({},#{src},{target:?},{})", if *parent { "parent-zone" } else { "own-zone" }, if *answer { "answer" } else { "authority" })
@@ -255,6 +275,8 @@ impl Fault {
                 Move::Reorder { sigs, .. } => if *sigs { "reorder-rrsigs".into() } else { "reorder-rrset".into() },
                 // the type class of the source is added by `Script::scene_tag`
                 Move::Reowned { .. } => "reowned-genuine-rrset".into(),
+                Move::InjectAlongside { what, owner, .. } => format!("inject-alongside({what},{})", if *owner == AlongOwner::Own { "own-owner" } else { "foreign-owner" }),
+                Move::AugmentDnskeySet => "augment-dnskey-set(attacker-key,self-signed)".into(),
             },
         }
     }
@@ -269,6 +291,12 @@ impl Fault {
                     Move::Reorder { sigs, perm } => {
                         v["sigs"] = json!(sigs);
                         v["perm"] = json!(perm);
+                    }
+                    Move::InjectAlongside { what, owner, signed, authority } => {
+                        v["what"] = json!(u16::from(*what));
+                        v["along_owner"] = json!(format!("{owner:?}"));
+                        v["signed"] = json!(signed);
+                        v["authority"] = json!(authority);
                     }
                     Move::Reowned { parent, src, target, answer } => {
                         v["parent"] = json!(parent);
@@ -321,6 +349,11 @@ impl Fault {
             Move::Rcode(v["rcode"].as_u64()? as u8)
         } else if mv == "replace-by-forged-apex-nsec+genuine-soa" {
             Move::ForgedApexNsecWithGenuineSoa
+        } else if mv.starts_with("inject-alongside") {
+            let owner = ALONG_OWNERS.into_iter().find(|o| format!("{o:?}") == v["along_owner"].as_str().unwrap_or(""))?;
+            Move::InjectAlongside { what: RecordType::from(v["what"].as_u64()? as u16), owner, signed: v["signed"].as_bool()?, authority: v["authority"].as_bool()? }
+        } else if mv == "augment-dnskey-set" {
+            Move::AugmentDnskeySet
         } else if mv.starts_with("reowned-genuine-rrset") {
             let target = RE_TARGETS.into_iter().find(|o| format!("{o:?}") == v["target"].as_str().unwrap_or(""))?;
             Move::Reowned { parent: v["parent"].as_bool()?, src: v["src"].as_u64()? as u16, target, answer: v["answer"].as_bool()? }
@@ -668,6 +701,70 @@ impl Script {
             }
             Move::Rcode(c) => {
                 m.metadata.response_code = ResponseCode::from(0, *c);
+                true
+            }
+            Move::InjectAlongside { what, owner, signed, authority } => {
+                let h = &self.hier.h;
+                // the zone this position is about: for a DS / DNSKEY query the queried name, else the
+                // apex of the answering zone
+                let zname = if matches!(q.query_type, RecordType::DS | RecordType::DNSKEY) { q.name.clone() } else { h.zones[self.publishing_zone(&q.name, q.query_type)].origin.clone() };
+                let new_owner = match owner {
+                    AlongOwner::Own => q.name.clone(),
+                    AlongOwner::Stray => vsec::n("stray."),
+                    AlongOwner::ParentApex => {
+                        if zname.is_root() {
+                            return false;
+                        }
+                        match h.deepest(&zname.base_name()) {
+                            Some(z) => h.zones[z].origin.clone(),
+                            None => return false,
+                        }
+                    }
+                    AlongOwner::Sibling => match self.hier.sibling_name.clone().or_else(|| self.hier.insecure_name.clone()) {
+                        Some(n) => n,
+                        None => return false,
+                    },
+                };
+                if dry {
+                    return true;
+                }
+                // DS / DNSKEY material always belongs to the attacker key for `zname`
+                let mut rec = Record::from_rdata(new_owner.clone(), 300, marker_rdata(*what, &zname, &self.hier));
+                rec.name = new_owner.clone();
+                let mut recs = vec![rec.clone()];
+                if *signed {
+                    let tz = self.publishing_zone(&new_owner, *what);
+                    if let Some((key, inj)) = resolve_key(&self.hier, KeyChoice::AttackerSameZone, tz) {
+                        recs.push(sign_with(&[rec], &key));
+                        self.register(inj);
+                    }
+                }
+                let sec = if *authority { &mut m.authorities } else { &mut m.answers };
+                // in front of the RRSIGs of an equally owned / typed RRset, else at the end
+                let pos = sec.iter().position(|r| r.record_type() == RecordType::RRSIG).unwrap_or(sec.len());
+                for (i, r) in recs.into_iter().enumerate() {
+                    sec.insert((pos + i).min(sec.len()), r);
+                }
+                true
+            }
+            Move::AugmentDnskeySet => {
+                if q.query_type != RecordType::DNSKEY {
+                    return false;
+                }
+                let key = attacker_key(KeyChoice::AttackerSameZone, &q.name);
+                let extra = sign::dnskey_record(&q.name, 300, key.dnskey());
+                let mut set: Vec<Record> = m.answers.iter().filter(|r| r.name == q.name && r.record_type() == RecordType::DNSKEY).cloned().collect();
+                if set.is_empty() && !dry {
+                    return false;
+                }
+                if dry {
+                    return true;
+                }
+                set.push(extra.clone());
+                let sig = sign_with(&set, &key);
+                let pos = m.answers.iter().position(|r| r.record_type() == RecordType::RRSIG).unwrap_or(m.answers.len());
+                m.answers.insert(pos, extra);
+                m.answers.push(sig);
                 true
             }
             Move::Reowned { parent, src, target, answer } => {
@@ -1033,6 +1130,27 @@ pub fn singles_at(script_probe: &Script, q: &Query, honest: &Message, thorough: 
                     out.push(Fault::Resp { q: k.clone(), mv: Move::Reowned { parent, src: i as u16, target, answer } });
                 }
             }
+        }
+    }
+    // inject alongside. Quick: attacker DS / DNSKEY at the validator's query and at DS / DNSKEY
+    // positions; thorough: DS / DNSKEY at every position, NS / A as well at DS / DNSKEY positions
+    {
+        let key_pos = matches!(q.query_type, RecordType::DS | RecordType::DNSKEY);
+        let whats: Vec<RecordType> = if thorough && key_pos { vec![RecordType::DS, RecordType::DNSKEY, RecordType::NS, RecordType::A] } else if thorough || key_pos { vec![RecordType::DS, RecordType::DNSKEY] } else { vec![] };
+        for what in whats {
+            for owner in ALONG_OWNERS {
+                for signed in [false, true] {
+                    for authority in [false, true] {
+                        let mv = Move::InjectAlongside { what, owner, signed, authority };
+                        if script_probe.move_applicable(q, &mv) {
+                            out.push(Fault::Resp { q: k.clone(), mv });
+                        }
+                    }
+                }
+            }
+        }
+        if q.query_type == RecordType::DNSKEY && honest.answers.iter().any(|r| r.record_type() == RecordType::DNSKEY) {
+            out.push(Fault::Resp { q: k.clone(), mv: Move::AugmentDnskeySet });
         }
     }
     for sigs in [false, true] {
